@@ -214,10 +214,10 @@ class Obligations:
         s1.set("timeout", min(budget, 20000))
         for a in assumptions:
             if zx.is_z(a):
-                s1.add(abstract_mul(a, cache))
+                s1.add(abstract_poly(a, cache))
             elif not a:
                 s1.add(z3.BoolVal(False))
-        s1.add(abstract_mul(neg, cache))
+        s1.add(abstract_poly(neg, cache))
         ints = int_consts([neg])  # case split only on integers the goal mentions
         self.extra["abstract_queries"] = self.extra.get("abstract_queries", 0) + 1
         for it in range(300):
@@ -360,3 +360,122 @@ def has_nonlinear(t, seen=None):
                     return True
             stack.extend(e.children())
     return False
+
+
+# --- polynomial normal form + symmetric monomial abstraction ------------------------------------------
+# abstract_mul cannot prove  p*(r + g*v) == r*p + g*(v*p)  (it needs distributivity).  abstract_poly first brings every
+# real-sorted arithmetic subterm into sum-of-monomials form over "atoms" (ite terms, symbols, ToReal(..), quotients by a
+# non-numeral), then replaces each monomial of degree >= 2 by an uninterpreted function made symmetric by summing over
+# all argument orders.  Unsat under this abstraction still implies unsat over the reals (each g_k may be interpreted as
+# product/k!), and algebraically equal polynomials become syntactically equal up to congruent atoms.
+_GK = {}
+
+
+def _gk(k):
+    if k not in _GK:
+        _GK[k] = z3.Function(f"umon{k}", *([z3.RealSort()] * k), z3.RealSort())
+    return _GK[k]
+
+
+def abstract_poly(t, cache=None, limit=4000):
+    cache = {} if cache is None else cache
+    return _norm(t, cache, limit)
+
+
+def _norm(t, cache, limit):
+    k = t.get_id()
+    if k in cache:
+        return cache[k]
+    if not z3.is_app(t) or not t.children():
+        cache[k] = t
+        return t
+    if z3.is_real(t) and t.decl().kind() in (z3.Z3_OP_ADD, z3.Z3_OP_SUB, z3.Z3_OP_MUL, z3.Z3_OP_UMINUS, z3.Z3_OP_DIV):
+        atoms = {}
+        try:
+            poly = _poly(t, cache, limit, atoms)
+            r = _rebuild(poly, atoms)
+        except OverflowError:
+            r = t.decl()(*[_norm(c, cache, limit) for c in t.children()])
+        cache[k] = r
+        return r
+    r = t.decl()(*[_norm(c, cache, limit) for c in t.children()])
+    cache[k] = r
+    return r
+
+
+def _num(t):
+    if z3.is_rational_value(t):
+        return Fraction(t.numerator_as_long(), t.denominator_as_long())
+    if z3.is_int_value(t):
+        return Fraction(t.as_long())
+    return None
+
+
+def _poly(t, cache, limit, atoms):
+    """{sorted tuple of atom ids: Fraction}"""
+    c = _num(t)
+    if c is not None:
+        return {(): c} if c != 0 else {}
+    kind = t.decl().kind() if z3.is_app(t) else None
+    ch = t.children() if z3.is_app(t) else []
+    if z3.is_real(t) and kind == z3.Z3_OP_ADD:
+        out = {}
+        for x in ch:
+            for m, v in _poly(x, cache, limit, atoms).items():
+                out[m] = out.get(m, 0) + v
+        return {m: v for m, v in out.items() if v != 0}
+    if z3.is_real(t) and kind == z3.Z3_OP_SUB:
+        out = dict(_poly(ch[0], cache, limit, atoms))
+        for x in ch[1:]:
+            for m, v in _poly(x, cache, limit, atoms).items():
+                out[m] = out.get(m, 0) - v
+        return {m: v for m, v in out.items() if v != 0}
+    if z3.is_real(t) and kind == z3.Z3_OP_UMINUS:
+        return {m: -v for m, v in _poly(ch[0], cache, limit, atoms).items()}
+    if z3.is_real(t) and kind == z3.Z3_OP_MUL:
+        out = {(): Fraction(1)}
+        for x in ch:
+            px = _poly(x, cache, limit, atoms)
+            new = {}
+            if len(out) * max(1, len(px)) > limit:
+                raise OverflowError
+            for m1, v1 in out.items():
+                for m2, v2 in px.items():
+                    m = tuple(sorted(m1 + m2))
+                    new[m] = new.get(m, 0) + v1 * v2
+            out = {m: v for m, v in new.items() if v != 0}
+        return out
+    if z3.is_real(t) and kind == z3.Z3_OP_DIV:
+        d = _num(ch[1])
+        if d is not None and d != 0:
+            return {m: v / d for m, v in _poly(ch[0], cache, limit, atoms).items()}
+        a = _UDIV_R(_norm(ch[0], cache, limit), _norm(ch[1], cache, limit))
+        atoms[a.get_id()] = a
+        return {(a.get_id(),): Fraction(1)}
+    # atom: normalise inside (conditions and branches of ite, arguments of to_real, ...)
+    a = t if not ch else t.decl()(*[_norm(x, cache, limit) for x in ch])
+    atoms[a.get_id()] = a
+    return {(a.get_id(),): Fraction(1)}
+
+
+def _rebuild(poly, atoms):
+    import itertools
+    terms = []
+    for m in sorted(poly):
+        coef = poly[m]
+        cz = z3.RealVal(f"{coef.numerator}/{coef.denominator}") if coef.denominator != 1 else z3.RealVal(coef.numerator)
+        if len(m) == 0:
+            terms.append(cz)
+            continue
+        args = [atoms[i] for i in m]
+        if len(args) == 1:
+            mon = args[0]
+        elif len(args) > 5:
+            raise OverflowError
+        else:
+            g = _gk(len(args))
+            mon = z3.Sum([g(*p) for p in set(itertools.permutations(args))])
+        terms.append(mon if coef == 1 else cz * mon)
+    if not terms:
+        return z3.RealVal(0)
+    return terms[0] if len(terms) == 1 else z3.Sum(terms)
